@@ -174,7 +174,8 @@ class TensorBoardFileTraceExporter(JsonFileTraceExporter):
         # consider support for other file formats not end with .json
         file_name = self.target_uri
         if file_name.endswith('.json') and not file_name.endswith(self.default_extension):
-            file_name = file_name.replace('.json', self.default_extension)
+            # only the extension: '.json' may occur elsewhere in the path (run1.json.d/out.json)
+            file_name = file_name[:-len('.json')] + self.default_extension
 
         # NO DUMP TO FILE FOR TB. Export serialized json via get_data instead
         if self.save_to_file:
